@@ -257,12 +257,16 @@ def make_array(clsname: str, folder: Path, g: dict, keep: list):
     return cls(folder, shape, internal, mask)
 
 
-def observe(arr, g: dict, gkeys_py: list, size: int) -> dict:
+SKIPPED = {"exc": "-", "shape": [], "data": [], "elems": []}
+
+
+def observe(arr, g: dict, gkeys_py: list, size: int, full: bool = True) -> dict:
+    """All observers. full=False ("light" event): __getitem__ and the two explicit to_array variants are skipped."""
     internal = bool(g["internal"])
-    o: dict = {"get": [out_block(lambda k=k: arr[k]) for k in gkeys_py]}    # gkeys_py = [] for a light event
+    o: dict = {"get": [out_block(lambda k=k: arr[k]) for k in gkeys_py] if full else []}
     o["ta_none"] = out_block(lambda: arr.to_array()) if internal else out_unsplat(lambda: arr.to_array())
-    o["ta_true"] = out_block(lambda: arr.to_array(splat_internal=True))
-    o["ta_false"] = out_unsplat(lambda: arr.to_array(splat_internal=False))
+    o["ta_true"] = out_block(lambda: arr.to_array(splat_internal=True)) if full else dict(SKIPPED)
+    o["ta_false"] = out_unsplat(lambda: arr.to_array(splat_internal=False)) if full else dict(SKIPPED)
     o["mask"] = out_bits(lambda: arr.mask)
     o["ml"] = out_bits(lambda: arr.mask_linear())
     has = []
@@ -279,7 +283,8 @@ def observe(arr, g: dict, gkeys_py: list, size: int) -> dict:
 
 def replay_ops(clsname: str, g: dict, ops: list[dict], gkeys: list, obs: str, scratch: str, light: bool = False) -> dict:
     """Run `ops` on a fresh object of class `clsname`; record every mutator outcome and all observations.
-    light: the __getitem__ observations are made after the last step only (all other observers after every step)."""
+    light: __getitem__ and to_array(splat_internal=True/False) are observed after the last step only (to_array(),
+    mask, mask_linear, has_index, get_from_index after every step)."""
     tmp = tempfile.mkdtemp(prefix="arr_", dir=scratch)
     folder = Path(tmp) / "store"          # must not exist yet (DictArray loads from an existing folder)
     size = int(np.prod(g["shape"])) if g["shape"] else 1
@@ -291,7 +296,7 @@ def replay_ops(clsname: str, g: dict, ops: list[dict], gkeys: list, obs: str, sc
         arr = make_array(clsname, folder, g, keep)
         full_at = (lambda t: t == len(ops)) if light else (lambda t: True)
         ev.append({"op": "new", "key": [], "val": dict(MISSING_VAL), "exc": "", "gk": int(full_at(0)),
-                   "o": observe(arr, g, gk if full_at(0) else [], size)})
+                   "o": observe(arr, g, gk, size, full_at(0))})
         for t, op in enumerate(ops, 1):
             exc = ""
             try:
@@ -306,7 +311,7 @@ def replay_ops(clsname: str, g: dict, ops: list[dict], gkeys: list, obs: str, sc
             except Exception as ex:  # noqa: BLE001  a raise is an event, never a gap
                 exc = type(ex).__name__
             ev.append({"op": op["op"], "key": op["key"], "val": {"shape": op["val"]["shape"], "data": op["val"]["data"]},
-                       "exc": exc, "gk": int(full_at(t)), "o": observe(arr, g, gk if full_at(t) else [], size)})
+                       "exc": exc, "gk": int(full_at(t)), "o": observe(arr, g, gk, size, full_at(t))})
     finally:
         NumpyRef._disk.pop(str(folder), None)
         shutil.rmtree(tmp, ignore_errors=True)
@@ -750,8 +755,9 @@ def run(ctx: Ctx) -> None:
         "mapping=, a few with its own Manager)",
         "observed __getitem__ keys: the bounded representative set ObsGetKeys of Storage.tla (all cells, per axis its "
         "whole alphabet against two bases, wrong ranks, six all-slice keys), after the last step of every exported "
-        "history and after EVERY step of every 4th (thorough: 8th) one; all other observers after every step of every "
-        "history; random histories: 27 sampled keys after every step",
+        "history and after EVERY step of every 4th (thorough: 8th) one, together with to_array(splat_internal=True/False); "
+        "to_array(), mask, mask_linear, has_index, get_from_index after every step of every history; random histories: "
+        "27 sampled keys and all observers after every step",
     ]
     classes = backend_classes()
     ctx.extra["backend_classes"] = sorted(classes)
